@@ -349,7 +349,7 @@ class Ctx(object):
                 self.failures.append((label, 'observed %s matches none of %d references, first %s'
                                       % (_short(av), len(rs), _short(_to_float_array(rs[0])))))
 
-    def le(self, label, lhs, rhs, slack=0.0):
+    def le(self, label, lhs, rhs, slack=0.0, box=8):
         """lhs <= rhs (scalars or entry-wise)."""
         a, b = flat(lhs), flat(rhs)
         a, b = np.broadcast_arrays(a, b)
@@ -357,7 +357,7 @@ class Ctx(object):
             lt, rt = entry_terms(a), entry_terms(b)
             self.records.append((label, lt))
             goals = [T.lt(T.add(v, T.const(slack)), u) for u, v in zip(lt, rt)]
-            self._oblige(label, goals, lt, rt, None, ineq=True)
+            self._oblige(label, goals, lt, rt, None, ineq=True, box=box)
         else:
             av, bv = _to_float_array(a), _to_float_array(b)
             self.records.append((label, av))
@@ -390,7 +390,7 @@ class Ctx(object):
         return False
 
     # ------------------------------------------------------ obligations
-    def _oblige(self, label, goals, lt, rt, tol, ineq=False):
+    def _oblige(self, label, goals, lt, rt, tol, ineq=False, box=None):
         st = self.stats
         st['obligations'] += 1
         if self.canary and False:
@@ -432,6 +432,7 @@ class Ctx(object):
                 s0.add(T.to_z3(goal))
                 self._sample(label, s0)
             use_tol = (tol if tol is not None else self.S.tol) if not ineq else None
+            self._ineq_box = box if ineq else None
             if _is_nonlinear([goal] + list(ENG.pc) + list(ENG.axioms)) and self.S.isolate:
                 # z3's own timeout is not reliable on nonlinear goals: decide in a forked child with a hard kill
                 res = _isolated(lambda: self._decide(goal, goals, lt, rt, use_tol),
@@ -489,6 +490,22 @@ class Ctx(object):
             # exact identity refuted: inexact concrete constants?  tolerance form
             s = ENG.fresh_solver(self.S.obligation_timeout_ms)
             r, model = self._tolerance_query(s, lt, rt, use_tol)
+            if r == 'unsat':
+                out['tolerance'] = True
+        if r == 'sat' and getattr(self, '_ineq_box', None):
+            # inequality with slack refuted somewhere: only a violation candidate if it is still refutable
+            # with all declared inputs inside the box (floats replay reliably there); otherwise the claim is
+            # "holds on the box", counted under tolerance
+            s = ENG.fresh_solver(self.S.obligation_timeout_ms)
+            s.add(T.to_z3(goal))
+            b = self._ineq_box
+            for n, info in self.inputs.items():
+                for vn, sort in self._var_names(n, info):
+                    if sort == T.R:
+                        v = z3.Real(vn)
+                        s.add(v >= -b, v <= b)
+            r = str(s.check())
+            model = s.model() if r == 'sat' else None
             if r == 'unsat':
                 out['tolerance'] = True
         if r == 'unknown' and len(goals) > 1:
